@@ -42,7 +42,6 @@ theorem nfStep_leaf_eval (g : Cfg) (cl : Cl) (recf : Nat → Cl → Outcome Arr)
   rw [hall]
   by_cases hd : allDuplicates (c :: t) = true
   · rw [if_pos hd, if_pos hd]
-    cases g.leaf cl[0] <;> rfl
   · rw [if_neg hd, if_neg hd]
 
 theorem loop_panic_genRec (g : Cfg) (P : Arr → Arr → Prop) (M : Nat) (pm : String)
